@@ -297,7 +297,70 @@ def _nonempty(db, f, n, K):
                         if not earlier:
                             return 'inside `while (!%s.empty())`, before any pop of it' % obj.get('txt', '')[:20]
     # parallel stacks: `parents` is pushed and popped together with `stack`
+    ls = _lockstep(f, n, obj, K)
+    if ls:
+        return ls
     return PARALLEL.get((f.name.split('::')[-1], obj.get('txt', '')))
+
+
+def _lockstep(f, n, obj, K):
+    """x.back() / x.pop_back() inside `while (!y.empty())`: x and y are local vectors created with the same number of elements, popped once each
+    at the top level of the loop body, and pushed only side by side (every block that pushes to one pushes as often to the other)."""
+    key = K.key(obj)
+    loop = next((a for a in f.ancestors(n) if a['k'] in ('WhileStmt', 'ForStmt') and 'cond' in a and 'body' in a), None)
+    if loop is None:
+        return None
+    ykey, yobj = None, None
+    for x in f.walk(f.stmts[loop['cond']]):
+        if x['k'] in ('CallExpr', 'CXXMemberCallExpr') and (x.get('cs') or '').split('::')[-1] == 'empty':
+            o = f.stmts[x['obj']] if 'obj' in x else (f.stmts[x['args'][0]] if x.get('args') else None)
+            if o is not None and any(u['k'] == 'UnaryOperator' and u.get('op') == '!' for u in f.walk(f.stmts[loop['cond']])):
+                ykey, yobj = K.key(o), o
+    if ykey is None or ykey == key:
+        return None
+
+    def decl_len(o):
+        o = f.strip(o)
+        if o is None or o['k'] != 'DeclRefExpr' or o.get('dk') != 'local':
+            return None
+        for s0 in f.rec['stmts']:
+            if s0['k'] == 'DeclStmt':
+                for d in s0.get('decls', []):
+                    if d.get('did') == o.get('did') and 'init' in d and 'vector' in (d.get('type') or ''):
+                        init = f.strip(f.stmts[d['init']])
+                        il = [x for x in f.walk(init) if x['k'] == 'InitListExpr'] if init is not None else []
+                        if il:
+                            return len(il[0].get('c', []))
+                        if init is not None and init['k'] in ('CXXConstructExpr', 'CXXTemporaryObjectExpr') and not init.get('args'):
+                            return 0
+        return None
+    lx, ly = decl_len(obj), decl_len(yobj)
+    if lx is None or lx != ly:
+        return None
+    body = f.stmts[loop['body']]
+
+    def ops(k_, names, root):
+        return [m for m in f.walk(root) if m['k'] == 'CXXMemberCallExpr' and (m.get('cs') or '').split('::')[-1] in names and 'obj' in m and K.key(f.stmts[m['obj']]) == k_]
+    top = set(body.get('c', []))
+
+    def top_level(m):
+        # the statement of the body that contains m must not be a conditional or a nested loop
+        for a in f.ancestors(m):
+            if a['id'] in top:
+                return a['k'] not in ('IfStmt', 'WhileStmt', 'ForStmt', 'CXXForRangeStmt', 'SwitchStmt', 'DoStmt')
+        return m['id'] in top
+    px, py = ops(key, ('pop_back',), body), ops(ykey, ('pop_back',), body)
+    if len(px) != 1 or len(py) != 1 or not top_level(px[0]) or not top_level(py[0]):
+        return None
+    for blk in [b for b in f.walk(body) if b['k'] == 'CompoundStmt']:
+        own = lambda k_: [m for m in ops(k_, ('push_back', 'emplace_back'), blk) if next((a for a in f.ancestors(m) if a['k'] == 'CompoundStmt'), None) is blk]
+        if len(own(key)) != len(own(ykey)):
+            return None
+    # nothing else changes the two outside the loop body
+    outside = [m for k_ in (key, ykey) for m in ops(k_, ('push_back', 'emplace_back', 'pop_back', 'clear', 'erase', 'insert', 'resize'), f.stmts[f.body]) if not any(a is body for a in f.ancestors(m))]
+    if outside:
+        return None
+    return '`%s` is created, popped and pushed in lock-step with `%s`, which the loop condition shows non-empty' % (obj.get('txt', '')[:20], yobj.get('txt', '')[:20])
 
 
 _RFE = {}
@@ -732,6 +795,9 @@ def check(db, rep):
     C03.typing_rules(db, r8, rep.tier)
     r4 = rep.rule('r4', 'NO-ESCAPE: every throwing accessor in the analysis code is guarded, in a try block, or decided by another rule', 100)
     no_escape(db, r4, rep)
+    r9 = rep.rule('r9', 'DEPTH-BOUNDED: the consumers of a parsed tree recurse over it, so the parser refuses (with a critical error) a tree nested deeper than a fixed bound before it builds the syntax tree, '
+                        'and the raw tree the grammar actions build is released without nested destructor calls', 3)
+    depth_bounded(db, r9, rep)
 
 
 def parser_loud(db, rule, rep):
@@ -959,3 +1025,95 @@ def inline_positions(db, rule):
         rule.ok('SubstituteArgs:positions', 'every node of the inlined body is stamped with the position of the call, on every path, before descending', f.loc(good[0][2]))
     else:
         rule.violation('SubstituteArgs:positions', '%s:%d' % (f.file, f.line), 'not every node of an inlined function body receives the position of the call: nodes keep offsets of the function definition text, and errors raised while evaluating them are reported outside the input')
+
+
+def depth_bounded(db, rule, rep):
+    """Nesting is under the control of the input ("¬"*N, "("*N, "1"+"+1"*N, "ℬ"*N ...), every consumer of the tree (CreateNodeRecursive, the
+    auditors, the normaliser, the evaluator, the generators) recurses over it, and nothing else limits the depth. Decided here: (1) the only way
+    to the syntax tree leads through the gate (SemanticCheck succeeds before CreateNodeRecursive runs); (2) the gate, interpreted on chains,
+    accepts ordinary depths and wide trees and refuses depth 4096 with a counted critical error; (3) detail::Node, whose trees are built by the
+    grammar actions before any check, has a destructor that detaches all descendants iteratively (interpreted on a chain: afterwards no
+    descendant owns a child, so the implicit member destruction nests one level). Not decided: that the stack suffices for the bound."""
+    D = R + 'detail::'
+    cst = db.fn(D + 'ParserState::CreateSyntaxTree', required=False)
+    gate = next((f for f in db.functions if f.name == D + 'SemanticCheck' and f.body >= 0), None)
+    if cst is None or gate is None or not cst.has_cfg():
+        rule.broken('anchor vanished: ParserState::CreateSyntaxTree / SemanticCheck')
+        return
+    # (1) the gate dominates the construction of the syntax tree
+    builds = [n for n in cst.calls() if (n.get('cs') or '') == D + 'CreateNodeRecursive']
+    if not builds:
+        rule.broken('ParserState::CreateSyntaxTree no longer calls CreateNodeRecursive')
+        return
+    gated = True
+    for n in builds:
+        pos = cst.position_of(n)
+        ok = False
+        for c, pol in (dominating_guards(cst, pos) if pos is not None else []):
+            c2, p2 = normalise_cond(cst, c, pol)
+            if c2 is not None and (c2.get('cs') or '') == D + 'SemanticCheck' and p2:
+                ok = True
+        gated = gated and ok
+    writers = sorted({f.name.split('::')[-1] for f in db.functions if f.has_cfg() and f.name.startswith(D) and any(
+        c['k'] == 'CXXOperatorCallExpr' and c.get('op') == '=' and c.get('args') and (f.strip(f.stmts[c['args'][0]]) or {}).get('member') == 'parsedTree'
+        and not (f.strip(f.stmts[c['args'][1]]) or {}).get('k') == 'CXXNullPtrLiteralExpr' for c in f.calls())})
+    if gated and set(writers) <= {'CreateSyntaxTree', 'NewInput'}:
+        rule.ok('gate:dominates', 'CreateNodeRecursive runs only after SemanticCheck succeeded; parsedTree is written only by %s' % ', '.join(writers), '%s:%d' % (cst.file, cst.line))
+    else:
+        rule.violation('gate:dominates', '%s:%d' % (cst.file, cst.line), 'the syntax tree can be built without passing SemanticCheck (writers of parsedTree: %s)' % ', '.join(writers))
+    # (2) the gate bounds the depth
+    ids = {e['name']: e['val'] for e in db.enum(R + 'TokenID')['enumerators']}
+    plain = ids.get('NOT', ids.get('LOGIC_NOT', 0))
+
+    def mk(children, i=0):
+        return Obj(__cls__=D + 'Node', token=Obj(__cls__=R + 'Token', id=plain, pos=Obj(start=i, finish=i + 1)), children=children)
+
+    def chain(depth):
+        node, nodes = None, []
+        for i in range(depth):
+            node = mk([node] if node is not None else [], depth - i)
+            nodes.append(node)
+        return node, nodes
+
+    def run_gate(root):
+        st = Obj(__cls__=D + 'ParserState', parsedTree=None, currentPosition=0, countCriticalErrors=0, reporter=None, nextTokenCall=None)
+        r = Interp(db, max_steps=20000000).call(gate, [st, root])
+        return bool(r), st['countCriticalErrors']
+    try:
+        a64, _ = run_gate(chain(64)[0])
+        wide, _ = run_gate(mk([mk([mk([]) for _ in range(400)]) for _ in range(3)]))
+        deep, crit = run_gate(chain(4096)[0])
+    except OutOfFragment as e:
+        rule.broken('SemanticCheck outside the evaluable fragment: %s' % e)
+        return
+    if not a64 or not wide:
+        rule.violation('gate:bound', '%s:%d' % (gate.file, gate.line), 'SemanticCheck refuses an ordinary tree (a chain of 64 operators: %s, a tree of 1200 nodes on three levels: %s)' % (a64, wide))
+    elif deep:
+        rule.violation('gate:bound', '%s:%d' % (gate.file, gate.line), 'SemanticCheck accepts a chain of 4096 nested operators and nothing else bounds the nesting: every consumer of the tree recurses once per level '
+                       '(CreateNodeRecursive, the auditors, the evaluator), so "¬"*N+"1=1", "("*N+"1"+")"*N or "1"+"+1"*N with N of a few thousand overflow the stack in Parser::Parse / CheckType / Evaluate')
+    elif crit < 1:
+        rule.violation('gate:bound', '%s:%d' % (gate.file, gate.line), 'SemanticCheck refuses a chain of 4096 nested operators without a counted critical error: the refusal is silent')
+    else:
+        rule.ok('gate:bound', 'a chain of 64 and a three-level tree of 1200 nodes pass; a chain of 4096 is refused with a critical error', '%s:%d' % (gate.file, gate.line))
+    # (3) the raw tree is released iteratively
+    dt = next((f for f in db.functions if f.name == D + 'Node::~Node' and f.body >= 0), None)
+    node_rec = '%s:%d' % (gate.file, gate.line)
+    if dt is None:
+        rule.violation('raw-node:destruction', node_rec, 'detail::Node owns its children through vector<shared_ptr<Node>> and has the implicit destructor: releasing a tree of depth N nests N destructor calls. '
+                       'The grammar actions build this tree before any check, so the bound of the gate does not protect it: "¬"*N+"1=1" overflows the stack when the parser pops its stack')
+    else:
+        def oc(it, fn, n, env):
+            if (n.get('cs') or '').endswith('::use_count'):
+                return 1
+            return NOT_HANDLED
+        try:
+            root, nodes = chain(40)
+            Interp(db, on_call=oc, max_steps=2000000).call(dt, [], root)
+            left = [x for x in nodes[:-1] if len(x['children'])]
+        except OutOfFragment as e:
+            rule.broken('detail::Node::~Node outside the evaluable fragment: %s' % e)
+            return
+        if left:
+            rule.violation('raw-node:destruction', '%s:%d' % (dt.file, dt.line), 'after ~Node() ran on the root of a chain of 40 nodes, %d descendants still own a child: their release nests one destructor call per level' % len(left))
+        else:
+            rule.ok('raw-node:destruction', '~Node() interpreted on a chain of 40 nodes: every descendant is detached before it is released', '%s:%d' % (dt.file, dt.line))
